@@ -97,7 +97,7 @@ def parseEvent (toks : List String) : Option Event :=
     | some i, some c, some (m, []) => some (.commitApp i c m)
     | _, _, _ => none
   | "commithb" :: r => match nats r with | some [i, c, t, mc] => some (.commitHB i c ⟨t, i, mc⟩) | _ => none
-  | "commitclaim" :: r => match nats r with | some [i, idx, t] => some (.commitClaim i ⟨idx, t⟩) | _ => none
+  | "commitclaim" :: r => match nats r with | some [i, idx, t] => some (.commitClaim i ⟨idx, t, 0⟩) | _ => none
   | "sendhb" :: r => match nats r with | some [i, to, c] => some (.sendHB i to c) | _ => none
   | "claim" :: r => match nats r with | some [i, idx] => some (.claim i idx) | _ => none
   | "sendsnap" :: r => match nats r with | some [i, idx] => some (.sendSnap i idx) | _ => none
